@@ -605,15 +605,10 @@ theorem dateCompare_none {isStr isDt : β → Bool} {op : α → β → Res Bool
           simpa [Vec.compare, apply, seqOp, hl] using h
         exact compare_none h' hx hy hn
       · split at h
-        · -- datetime vector: every pair raises, so a result exists only for empty vectors
-          obtain ⟨l, hl', _⟩ := toBoolVec_ok h
-          rw [zipCells_eq_mapRes _ xs ys hl] at hl'
-          have hz := mapRes_all_error_ok (e := .type) (fun _ => rfl) hl'
-          have hxs : xs = [] := by
-            cases xs with
-            | nil => rfl
-            | cons a as => cases ys <;> simp at hz hl
-          subst hxs; simp at hx
+        · -- datetime vector: the same loop with the date taken at midnight
+          have h' : Vec.compare iso xs (.vec ys dt) = .ok r := by
+            simpa [Vec.compare, apply, seqOp, hl] using h
+          exact compare_none h' hx hy hn
         · exact compare_none h hx hy hn
   | seq ys =>
     have h' : Vec.compare op xs (.seq ys) = .ok r := h
@@ -624,9 +619,8 @@ theorem dateCompare_none {isStr isDt : β → Bool} {op : α → β → Res Bool
     · have h' : Vec.compare iso xs (.scalar s) = .ok r := h
       exact compare_none h' hx hy hn
     · split at h
-      · obtain ⟨l, hl', _⟩ := toBoolVec_ok h
-        have hxs := mapRes_all_error_ok (e := .type) (fun _ => rfl) hl'
-        subst hxs; simp at hx
+      · have h' : Vec.compare iso xs (.scalar s) = .ok r := h
+        exact compare_none h' hx hy hn
       · exact compare_none h hx hy hn
 
 /-! ### reductions -/
